@@ -601,3 +601,72 @@ func imin(a, b int) int {
 	}
 	return b
 }
+
+// GenH1Trunc emits, for one well-formed length-delimited response (Content-Length or chunked, with
+// or without trailers), EVERY strict prefix (all offsets when the message is short, a spread of
+// offsets in every region otherwise), each of which must not be read as a complete message, then
+// the whole message followed by the next response (which must be read completely and leave the next
+// one untouched), and the truncated message followed by the next one as a response stream.
+func GenH1Trunc(r *core.Rand, maxBody int) []string {
+	var ops []string
+	s := GenH1Spec(r, false, maxBody)
+	s.ReqMethod = r.Pick("GET", "POST")
+	code := []int{200, 200, 201, 206, 404, 500}[r.Intn(6)]
+	s.StatusLn = strconv.Itoa(code) + " X"
+	s.Framing = r.Pick("cl", "chunked", "chunked")
+	s.Proto = "HTTP/1.1"
+	var fs [][2]string
+	for _, f := range s.Fields {
+		k := strings.ToLower(f[0])
+		if k == "content-length" || k == "transfer-encoding" || k == "trailer" || k == "connection" {
+			continue
+		}
+		fs = append(fs, f)
+	}
+	s.Fields = fs
+	s.Body = h1Body(r, maxBody)
+	s.Chunks, s.Trailer = nil, nil
+	if s.Framing == "chunked" {
+		s.Chunks = h1Chunks(r, len(s.Body))
+		if r.Chance(1, 3) {
+			s.Trailer = append(s.Trailer, h1Trailers[r.Intn(len(h1Trailers))])
+		}
+	}
+	w := s.Wire()
+	next := []byte("HTTP/1.1 404 Not Found\r\nContent-Length: 3\r\n\r\nnxt")
+	meth := core.HexS(s.ReqMethod)
+	var ks []int
+	if len(w) <= 260 {
+		for k := 0; k < len(w); k++ {
+			ks = append(ks, k)
+		}
+	} else {
+		for i := 0; i < 60; i++ {
+			k := r.Intn(len(w))
+			switch i % 4 {
+			case 0:
+				k = r.Intn(s.HeadEnd)
+			case 1:
+				if len(s.SizeLines) > 0 {
+					sl := s.SizeLines[r.Intn(len(s.SizeLines))]
+					k = sl[0] + r.Intn(sl[1]-sl[0]+1)
+				}
+			case 2:
+				k = s.BodyEnd + r.Intn(s.End-s.BodyEnd+1)
+			}
+			if k >= len(w) {
+				k = len(w) - 1
+			}
+			ks = append(ks, k)
+		}
+	}
+	for _, k := range ks {
+		core.Count("h1.trunc:" + s.Framing + ":" + s.CutClass(k))
+		ops = append(ops, "h1.readres "+meth+" "+core.Hex(w[:k])+" want=notok")
+	}
+	ops = append(ops, "h1.readres "+meth+" "+core.Hex(append(append([]byte(nil), w...), next...))+want(s))
+	ops = append(ops, "h1.readress "+meth+","+core.HexS("GET")+" "+core.Hex(append(append([]byte(nil), w...), next...))+" want=n:2")
+	k := r.Intn(len(w))
+	ops = append(ops, "h1.readress "+meth+","+core.HexS("GET")+" "+core.Hex(append(append([]byte(nil), w[:k]...), next...)))
+	return ops
+}
